@@ -39,7 +39,7 @@ for sd in [a for a in sys.argv[1:] if not a.startswith('--')]:
         keys = sorted(set(re.findall(r"^FAIL key=(\S+)", out, re.M)))
         cases = re.findall(r"^case: (.*)$", out, re.M)[:2]
         m = re.search(r"check exit=(\d+)", out)
-        runs.append(dict(check=(f"./check {pid} --tier quick" if not os.environ.get("VP_TRY_REPO") else f"VP_REPO=<scratch worktree of /repo HEAD with the patch applied> ./check {pid} --tier quick"), exit=int(m.group(1)) if m else None, violation="VIOLATION" in out, keys=keys, first_cases=cases))
+        runs.append(dict(check=f"./check {pid} --tier quick", tree=("/repo (git apply, check, git checkout -- .)" if not os.environ.get("VP_TRY_REPO") else "scratch worktree of /repo HEAD with the patch applied (VP_REPO)"), exit=int(m.group(1)) if m else None, violation="VIOLATION" in out, keys=keys, first_cases=cases))
     if not CONFIRM_ONLY:
         v["check_runs"] = runs
         v["caught"] = any(r["violation"] and r["exit"] == 1 for r in runs)
